@@ -93,6 +93,10 @@ type VUniverse struct {
 	Nodes      []VNode        `json:"nodes"`
 	Pseudo     []VPseudo      `json:"pseudo,omitempty"`
 	ExtraTags  []VTag         `json:"extra_tags,omitempty"`
+	// MoreTags: further CANONICAL version tags on revisions that already carry one: a second tag of the same project
+	// (v1.0.0-rc.1 next to v1.0.0) or a tag of a sibling project. Each is a version of the universe; what it declares is
+	// what its directory says at that revision.
+	MoreTags []VPseudo `json:"more_tags,omitempty"`
 	Refs       map[string]int `json:"refs"` // branch → revision number (1-based)
 	DefaultRef string         `json:"default_ref"`
 }
@@ -121,7 +125,7 @@ func (u *VUniverse) nodePath(n *VNode) string {
 // at revision Rev), keyed by (path, version)
 func (u *VUniverse) pseudoNodes() map[VMod]*VNode {
 	out := map[VMod]*VNode{}
-	for _, p := range u.Pseudo {
+	for _, p := range append(append([]VPseudo(nil), u.Pseudo...), u.MoreTags...) {
 		if n := u.snapshot(p.Rev, p.Base); n != nil {
 			out[VMod{project.JoinPathVersion(path.Join(u.Repo, p.Base), semver.Major(p.Version)), p.Version}] = n
 		}
@@ -293,6 +297,17 @@ func (r *vRepo) Versions(ctx context.Context) ([]*vcs.Version, error) {
 					return n.Base
 				}(),
 				RevisionID: strconv.Itoa(i + 1),
+			})
+		}
+		for _, t := range r.u.MoreTags {
+			pp := t.Base
+			if pp == "" {
+				pp = "."
+			}
+			tags = append(tags, &vcs.Version{
+				Version:     module.Version{Path: project.JoinPathVersion(path.Join(r.u.Repo, t.Base), semver.Major(t.Version)), Version: t.Version},
+				ProjectPath: pp,
+				RevisionID:  strconv.Itoa(t.Rev),
 			})
 		}
 		slices.SortStableFunc(tags, func(a, b *vcs.Version) int {
@@ -657,15 +672,21 @@ func refResolveRef(u *VUniverse, cpath, ref string) (VMod, int, bool) {
 	if !ok || !strings.HasPrefix(cpath+"/", u.Repo+"/") && cpath != u.Repo && !strings.HasPrefix(cpath, u.Repo+"@") {
 		return VMod{}, 0, false
 	}
+	tags := u.allTags()
 	for n := rev; n >= 1; n-- {
-		node := &u.Nodes[n-1]
-		if u.nodePath(node) != cpath {
+		best := ""
+		for _, t := range tags {
+			if t.Rev == n && t.Path == cpath && (best == "" || refCmp(t.Version, best) > 0) {
+				best = t.Version
+			}
+		}
+		if best == "" {
 			continue
 		}
 		if n == rev {
-			return VMod{cpath, node.Version}, rev, true
+			return VMod{cpath, best}, rev, true
 		}
-		return VMod{cpath, vPseudoVersion(node.Version, rev)}, rev, true
+		return VMod{cpath, vPseudoVersion(best, rev)}, rev, true
 	}
 	// no tagged ancestor: v0.0.0-… for a path without a major suffix; with a suffix vN dawn bases the pseudo-version on
 	// "vN" itself, i.e. vN.0.1-0.… (an ordering-neutral peculiarity, taken over here)
@@ -837,7 +858,7 @@ func (s *vSession) resolver(mode string) *Resolver {
 	}
 }
 
-// vFaultEvery: the fault scenarios run on every n-th edit (quick: 5, thorough and replay: 1)
+// vFaultEvery: the fault scenarios run on every n-th edit (quick: 4, thorough and replay: 1)
 var vFaultEvery = uint64(1)
 
 var (
@@ -1124,6 +1145,50 @@ func genUniverse(r *vRng) (VUniverse, []genGroup) {
 			}
 		}
 	}
+	// near-collisions: a second project whose directory differs from an existing one only in letter case, by a trailing dot,
+	// by `%2F` for `/`, or by the Unicode normalisation form of one letter — with the SAME version strings and its own
+	// requirements. They are distinct projects; nothing that folds case or escapes paths may confuse them.
+	if len(pend) > 0 && r.chance(1, 4) {
+		src := pend[r.below(len(pend))].base
+		if src != "" {
+			var twins []string
+			switch r.below(4) {
+			case 0:
+				last := src[strings.LastIndexByte(src, '/')+1:]
+				twins = []string{src[:len(src)-len(last)] + strings.ToUpper(last[:1]) + last[1:]}
+			case 1:
+				twins = []string{src + "."}
+			case 2:
+				if strings.Contains(src, "/") {
+					twins = []string{strings.Replace(src, "/", "%2F", 1)}
+				} else {
+					twins = []string{strings.ToUpper(src)}
+				}
+			default:
+				twins = []string{src + "-\u00e9", src + "-e\u0301"} // é precomposed and decomposed
+			}
+			n0 := len(pend)
+			for _, tw := range twins {
+				for i := 0; i < n0; i++ {
+					if pend[i].base != src {
+						continue
+					}
+					pth := project.JoinPathVersion(path.Join(u.Repo, tw), semver.Major(pend[i].version))
+					gi := -1
+					for k := range groups {
+						if groups[k].path == pth {
+							gi = k
+						}
+					}
+					if gi == -1 {
+						groups = append(groups, genGroup{path: pth})
+						gi = len(groups) - 1
+					}
+					pend = append(pend, pending{tw, pend[i].version, pend[i].name, gi})
+				}
+			}
+		}
+	}
 	// drop accidental duplicates (a prerelease followed by the same prerelease)
 	seen := map[string]bool{}
 	var uniq []pending
@@ -1281,6 +1346,46 @@ func genUniverse(r *vRng) (VUniverse, []genGroup) {
 				if from.Base != b {
 					from.Reqs = append(from.Reqs, pm)
 				}
+			}
+		}
+	}
+	// several version tags on one revision: a second tag of the same project, or a tag of a sibling project
+	if r.chance(1, 3) {
+		have := map[VMod]bool{}
+		for _, t := range u.allTags() {
+			have[t.VMod] = true
+		}
+		for k := 1 + r.below(3); k > 0; k-- {
+			i := r.below(len(u.Nodes))
+			n := &u.Nodes[i]
+			pv, _ := refParse(n.Version)
+			var t VPseudo
+			if r.chance(1, 2) {
+				v := fmt.Sprintf("v%d.%d.%d", pv.maj, pv.min, pv.pat)
+				if len(pv.pre) == 0 {
+					v += vPick(r, []string{"-rc.1", "-rc1", "-0"})
+				}
+				t = VPseudo{Base: n.Base, Version: v, Rev: i + 1}
+			} else {
+				var sibs []*VNode
+				seenB := map[string]bool{n.Base: true}
+				for j := 0; j <= i; j++ {
+					if b := u.Nodes[j].Base; !seenB[b] {
+						seenB[b] = true
+						sibs = append(sibs, u.snapshot(i+1, b))
+					}
+				}
+				if len(sibs) == 0 {
+					continue
+				}
+				sn := vPick(r, sibs)
+				sp, _ := refParse(sn.Version)
+				t = VPseudo{Base: sn.Base, Version: fmt.Sprintf("v%d.%d.%d", sp.maj, sp.min, sp.pat+50+uint64(r.below(3))), Rev: i + 1}
+			}
+			m := VMod{project.JoinPathVersion(path.Join(u.Repo, t.Base), semver.Major(t.Version)), t.Version}
+			if !have[m] {
+				have[m] = true
+				u.MoreTags = append(u.MoreTags, t)
 			}
 		}
 	}
@@ -1792,16 +1897,40 @@ func pathsOf(r map[string]VMod) map[string][]string {
 	return out
 }
 
+// every canonical version tag of the universe, with the revision it points at
+func (u *VUniverse) allTags() []struct {
+	VMod
+	Rev int
+} {
+	var out []struct {
+		VMod
+		Rev int
+	}
+	for i := range u.Nodes {
+		n := &u.Nodes[i]
+		out = append(out, struct {
+			VMod
+			Rev int
+		}{VMod{u.nodePath(n), n.Version}, i + 1})
+	}
+	for _, t := range u.MoreTags {
+		out = append(out, struct {
+			VMod
+			Rev int
+		}{VMod{project.JoinPathVersion(path.Join(u.Repo, t.Base), semver.Major(t.Version)), t.Version}, t.Rev})
+	}
+	return out
+}
+
 // the greatest release tag of the same major line at or above the current version
 func refLatestRelease(u *VUniverse, p, cur string) string {
 	best := cur
-	for i := range u.Nodes {
-		n := &u.Nodes[i]
-		if u.nodePath(n) != p || refMajor(n.Version) != refMajor(cur) || strings.Contains(n.Version, "-") {
+	for _, t := range u.allTags() {
+		if t.Path != p || refMajor(t.Version) != refMajor(cur) || strings.Contains(t.Version, "-") {
 			continue
 		}
-		if refCmp(n.Version, best) > 0 {
-			best = n.Version
+		if refCmp(t.Version, best) > 0 {
+			best = t.Version
 		}
 	}
 	return best
@@ -2155,13 +2284,11 @@ func judgeFaults(o *caseOut, c *VCase, g *refGraph, root map[string]VMod, op str
 func judgeUpgradePrevious(o *caseOut, c *VCase, s *vSession) {
 	reqs := newReqs(&mvsProject{Version: module.Version{}}, s.resolver("mem"))
 	tagsOf := map[string]map[string]bool{}
-	for i := range c.U.Nodes {
-		n := &c.U.Nodes[i]
-		p := c.U.nodePath(n)
-		if tagsOf[p] == nil {
-			tagsOf[p] = map[string]bool{}
+	for _, t := range c.U.allTags() {
+		if tagsOf[t.Path] == nil {
+			tagsOf[t.Path] = map[string]bool{}
 		}
-		tagsOf[p][n.Version] = true
+		tagsOf[t.Path][t.Version] = true
 	}
 	ctx := context.Background()
 	for i := range c.U.Nodes {
@@ -2443,6 +2570,27 @@ func directedCases(prop string) []*VCase {
 			out = append(out, &VCase{Prop: prop, Cache: cache, Perm: 9, Legacy: 77, U: alike, Root: map[string]VMod{"app": {P("app"), "v1.0.0"}}, Ops: []string{"bl"}})
 		}
 	}
+	if prop == "C10" {
+		// two projects whose paths differ only in letter case, same version, different requirements — and the same for a
+		// trailing dot: distinct projects, distinct cache directories, whatever the fetch order and the cache state
+		twin := VUniverse{Repo: repo, DefaultRef: "main", Refs: map[string]int{"main": 6},
+			Nodes: []VNode{{Base: "x", Version: "v1.0.0"}, {Base: "y", Version: "v1.0.0"},
+				{Base: "tools/lib", Version: "v1.0.0", Reqs: []VMod{{P("x"), "v1.0.0"}}}, {Base: "Tools/lib", Version: "v1.0.0", Reqs: []VMod{{P("y"), "v1.0.0"}}},
+				{Base: "lib.", Version: "v1.0.0", Reqs: []VMod{{P("x"), "v1.0.0"}}}, {Base: "lib", Version: "v1.0.0"}}}
+		for _, cache := range []string{"cold", "disk", "mem"} {
+			out = append(out, &VCase{Prop: prop, Cache: cache, Perm: 3, U: twin,
+				Root: map[string]VMod{"a": {P("tools/lib"), "v1.0.0"}, "b": {P("Tools/lib"), "v1.0.0"}, "c": {P("lib."), "v1.0.0"}, "d": {P("lib"), "v1.0.0"}}, Ops: []string{"bl"}})
+			out = append(out, &VCase{Prop: prop, Cache: cache, Perm: 3, U: twin, Root: map[string]VMod{"b": {P("Tools/lib"), "v1.0.0"}}, Ops: []string{"bl"}})
+		}
+	} else {
+		// a commit that carries TWO tags of one project (v1.0.0-rc.1 and v1.0.0) and one of a sibling: a ref on it, or past
+		// it, resolves on the GREATEST tag of that commit
+		two := VUniverse{Repo: repo, DefaultRef: "main", Refs: map[string]int{"main": 3, "rel": 2},
+			Nodes: []VNode{{Base: "e", Version: "v1.0.0"}, {Base: "d", Version: "v1.0.0"}, {Base: "e", Version: "v1.1.0"}},
+			MoreTags: []VPseudo{{Base: "d", Version: "v1.0.0-rc.1", Rev: 2}, {Base: "d", Version: "v0.9.0", Rev: 2}, {Base: "e", Version: "v1.0.5", Rev: 2}}}
+		out = append(out, &VCase{Prop: prop, Cache: "cold", U: two, Root: map[string]VMod{"d": {P("d"), "v1.0.0"}},
+			Ops: []string{"get:" + P("d") + "@rel", "get:" + P("d") + "@main", "get:" + P("e") + "@rel"}})
+	}
 	// every second directed case writes its dawn.toml files with non-canonical spellings of the requirement paths;
 	// the C10 ones also resolve a second root with the same resolver
 	for i, c := range out {
@@ -2509,7 +2657,7 @@ func VerifMain(args []string) int {
 	}
 
 	if *tier == "quick" {
-		vFaultEvery = 5
+		vFaultEvery = 4
 	}
 	if *budget == 0 {
 		*budget = 25 * time.Second
